@@ -711,6 +711,11 @@ class IDManager:
             )
 
     def get_upload_info(self, id: int, terminal: str) -> Optional[UploadInfo]:
+        if not self.conn.in_transaction:
+            # Read the record and the newer uploads from one snapshot of the database.
+            with self.conn:
+                self.conn.execute("BEGIN")
+                return self.get_upload_info(id, terminal)
         with closing(self.conn.cursor()) as cursor:
             cursor.execute(
                 """
@@ -769,10 +774,13 @@ class IDManager:
         max_bytes_ago: int = 20 * (2**20),
         max_time_ago: timedelta = timedelta(hours=1),
     ) -> bool:
-        info = self.get_info(id)
-        if info is None:
-            return False
-        upload_info = self.get_upload_info(id, terminal)
+        # Read the assignment and the upload record from one snapshot of the database.
+        with self.conn:
+            self.conn.execute("BEGIN")
+            info = self.get_info(id)
+            if info is None:
+                return False
+            upload_info = self.get_upload_info(id, terminal)
         if upload_info is None:
             return True
         return (
